@@ -11,6 +11,7 @@ import (
 
 	_ "verifsim/engines/faultsim"
 	_ "verifsim/engines/mapsim"
+	_ "verifsim/engines/plugsim"
 )
 
 func verifDir() string {
